@@ -402,7 +402,9 @@ def _report_footnotes(context, footnotes_height):
 
     # Report and count footnotes
     reported_footnotes = 0
-    while context.current_footnote_area.margin_height() > footnotes_height:
+    while (context.current_page_footnotes and
+           context.current_footnote_area.margin_height() > footnotes_height):
+        # An area emptied by the last report has no height ('auto')
         context.report_footnote(context.current_page_footnotes[-1])
         reported_footnotes += 1
 
